@@ -4,7 +4,7 @@ import math
 
 EPOCH = dtm.date(1970, 1, 1)
 OPEN, CLOSE = 52200, 75600
-SYMS = ['AAA', 'BBB', 'CCC', 'DDD']
+SYMS = ['AAA', 'BBB', 'CCC', 'DDD', 'EEE', 'FFF', 'GGG', 'HHH']
 
 
 def day_of(d):
@@ -49,10 +49,16 @@ def gen_fee(rng):
 
 def gen_case(rng, family='any'):
     """family: 'fixed' (fixed weights, static universe: C08), 'signal', 'dynamic', 'any'"""
+    rotation = False
+    if family == 'rotation':
+        # a wide universe traded by a long-only momentum rotation: positions are closed out and re-opened repeatedly
+        family, rotation = 'signal', True
     if family == 'any':
         family = rng.choice(['fixed', 'fixed', 'signal', 'dynamic'])
     d0 = dtm.date(2018, 1, 1) + dtm.timedelta(days=rng.randrange(0, 900))
-    nsym = rng.choice([1, 2, 3, 4])
+    nsym = rng.choice([1, 2, 3, 4, 4, 6, 8])
+    if rotation:
+        nsym = rng.choice([5, 6, 8])
     syms = SYMS[:nsym]
     assets = ['EQ:' + s for s in syms]
     lo = rng.random() < 0.5
@@ -61,6 +67,9 @@ def gen_case(rng, family='any'):
     if reb == 'buy_and_hold' and rng.random() < 0.15:
         start_tod = 0                   # the single instant is then not a clock event: nothing ever trades
     nd = rng.choice([5, 12, 20, 45, 60, 100])
+    if rotation:
+        reb, nd = rng.choice(['weekly', 'daily']), rng.choice([45, 60, 100])
+        start_tod = rng.choice([0, OPEN])
     start = day_of(d0) * 86400 + start_tod
     end = (day_of(d0) + nd) * 86400 + 86340
     late = None
@@ -101,8 +110,10 @@ def gen_case(rng, family='any'):
         uni = {'dynamic': dates}
         alpha = {'single': rng.choice([1.0, 0.5])} if rng.random() < 0.7 else {'fixed': [[a, rng.uniform(0.1, 1)] for a in assets]}
     else:
-        k = rng.choice(['momentum', 'invvol'])
+        k = rng.choice(['momentum', 'invvol']) if not rotation else 'momentum'
         n = rng.choice([1, 2, 3, 5])
+        if rotation:
+            lo = True
         if k == 'momentum':
             signals = [['mom', [n]], ['sma', [rng.choice([2, 5])]]]
             alpha = {'momentum': n}
@@ -123,6 +134,9 @@ def gen_case(rng, family='any'):
     if k < 0.45:
         dd = day_of(d0) + rng.randrange(0, max(1, nd))
         burn = dd * 86400 + rng.choice([0, CLOSE, CLOSE, CLOSE + 1, OPEN, 40000])
+    if 'dynamic' in uni and rng.random() < 0.3:
+        # entry instants expressed in another time zone (same instants)
+        uni['entry_tz'] = rng.choice(['America/New_York', 'Asia/Tokyo', 'Europe/London', 'Australia/Sydney'])
     if 'dynamic' in uni and late:
         # keep the entry map as generated; assets may be in the universe before their data starts (run then fails: NaN price)
         pass
